@@ -1918,6 +1918,10 @@ int sm2_z256_point_to_uncompressed_octets(const SM2_Z256_POINT *P, uint8_t out[6
 
 int sm2_z256_point_from_octets(SM2_Z256_POINT *P, const uint8_t *in, size_t inlen)
 {
+	if (!P || !in || !inlen) {
+		error_print();
+		return -1;
+	}
 	switch (*in) {
 	case SM2_point_at_infinity:
 		if (inlen != 1) {
@@ -1951,8 +1955,8 @@ int sm2_z256_point_from_octets(SM2_Z256_POINT *P, const uint8_t *in, size_t inle
 			error_print();
 			return -1;
 		}
-		sm2_z256_point_from_bytes(P, in + 1);
-		if (sm2_z256_point_is_on_curve(P) != 1) {
+		// coordinates >= p, (0, 0) and points not on the curve are all refused
+		if (sm2_z256_point_from_bytes(P, in + 1) != 1) {
 			error_print();
 			return -1;
 		}
